@@ -64,6 +64,11 @@ func (ms *mapStruct) ptr(offset int64, l int32) ([]byte, error) {
 	}
 	if windowSize < len+alignFudge {
 		windowSize = alignedLength(len + alignFudge)
+		// Rounding up must not extend the window past the end of the file,
+		// otherwise the read loop below hits EOF.
+		if windowStart+windowSize > ms.fileSize {
+			windowSize = ms.fileSize - windowStart
+		}
 	}
 	if windowSize > ms.pSize {
 		win := make([]byte, windowSize)
